@@ -15,7 +15,12 @@ from harness.props.c10 import install_kind_recorder, render_marker, DEFS, NAMES,
 
 THEOREMS = [
     "HedVerif.C07.labels",
+    "HedVerif.C07.labels_typed",
     "HedVerif.C07.labels_point_partial",
+    "HedVerif.C07.labels_merged",
+    "HedVerif.C07.mergeF_eq_blankOr",
+    "HedVerif.C07.concat_join_example",
+    "HedVerif.C07.concat_join_counterexample",
     "HedVerif.C07.labels_merged_counterexample",
     "HedVerif.C07.span_remap",
     "HedVerif.C07.row_equals_string",
@@ -27,6 +32,19 @@ THEOREMS = [
     "HedVerif.C07.sortT_eq_sortRows",
 ]
 BUDGET = {"quick": 900, "thorough": 3600}
+# closed mode (string-level oracles instantiated by the C01 model): theorems of lean/HedVerif/Props/Closed.lean
+EXTRA_AUDIT = ("HedVerif.Props.Closed", [
+    "HedVerif.C07.eval_closed",
+    "HedVerif.C07.total_closed",
+    "HedVerif.C07.labels_closed",
+    "HedVerif.C07.cell_issue_closed",
+    "HedVerif.C07.cell_errors_kept_closed",
+    "HedVerif.C07.row_equals_string_closed",
+    "HedVerif.C07.row_equals_validate_closed",
+    "HedVerif.C07.unbalanced_cell_reported_closed",
+    "HedVerif.C07.shuffle_closed",
+    "HedVerif.C07.pipeline_example_closed",
+])
 
 SIG_MERGED = "C07-merged-row-label"
 UNORDERED = "ONSETS_UNORDERED:ONSETS_UNORDERED"
@@ -50,7 +68,7 @@ def timed_group(tag, eighths, rng, inner):
 
 def gen_spec(rng, real, nrows=None, mode=None, distinct=False):
     """A table: mode, onsets (eighths of a second, None = 'n/a') or no onset column, and up to three data columns."""
-    mode = mode or rng.choice(["tabular", "tabular", "sidecar", "sidecar", "sheet", "sheet_nohdr"])
+    mode = mode or rng.choice(["tabular", "tabular", "sidecar", "sidecar", "sheet", "sheet_nohdr", "sheet_nohdr"])
     n = nrows or rng.randint(1, 7)
     has_onset = mode in ("tabular", "sidecar") and rng.random() < 0.75 or (mode == "sheet" and rng.random() < 0.3)
     ncols = 1 if mode == "tabular" else rng.randint(1, 3)
@@ -134,6 +152,9 @@ def _gen_spec(rng, n, mode, has_onset, ncols, distinct, plain=False):
         marks.append(row_marks)
         clean.append(ok)
     spec = {"mode": mode, "onsets": onsets, "cols": cols, "marks": marks, "clean": clean}
+    if mode == "sheet_nohdr":     # integer column labels: HED columns at positions lead.., sometimes read from a TSV file
+        spec["lead"] = rng.choice([0, 0, 0, 1, 2])
+        spec["from_file"] = rng.random() < 0.25
     if mode == "sidecar":
         spec["sidecar"] = gen_sidecar(rng, spec)
     return spec
@@ -223,6 +244,18 @@ def permuted(spec, perm):
 
 
 # ---------------------------------------------------------------------------------------------- real code
+def norm_label(x):
+    """a column label with its type: None, ["i", n] for an integer, ["s", text] for a string"""
+    import numbers
+    if x is None:
+        return None
+    if isinstance(x, numbers.Integral) and not isinstance(x, bool):
+        return ["i", int(x)]
+    if isinstance(x, str):
+        return ["s", x]
+    return ["o", repr(x)]
+
+
 class Real:
     def __init__(self):
         from hed import load_schema_version
@@ -234,6 +267,7 @@ class Real:
         self.hv = HedValidator(self.schema, def_dicts=self.dd)
         self.cache = {}
         self.row_cells = {}
+        self.rows_seen = set()
 
     def build(self, spec):
         import io
@@ -257,9 +291,31 @@ class Real:
         tags = names[:len(spec["cols"])]
         if spec["mode"] == "sheet":
             return SpreadsheetInput(df, tag_columns=tags, name="gen")
+        # header-less: the columns are addressed by integer position; `lead` non-HED columns come first
+        lead = int(spec.get("lead") or 0)
         df = df[tags]
-        df.columns = list(range(len(tags)))
-        return SpreadsheetInput(df, tag_columns=list(range(len(tags))), has_column_names=False, name="gen")
+        for j in range(lead):
+            df.insert(j, f"x{j}", [f"id{j}_{r}" for r in range(n)])
+        df.columns = list(range(lead + len(tags)))
+        cols = list(range(lead, lead + len(tags)))
+        if spec.get("from_file"):
+            import os
+            path = os.path.join(self.tmpdir(), "nohdr.tsv")
+            df.to_csv(path, sep="\t", header=False, index=False)
+            return SpreadsheetInput(path, file_type=".tsv", tag_columns=cols, has_column_names=False, name="gen")
+        return SpreadsheetInput(df, tag_columns=cols, has_column_names=False, name="gen")
+
+    def tmpdir(self):
+        import tempfile
+        if not getattr(self, "_tmp", None):
+            self._tmp = tempfile.mkdtemp(prefix="hv_c07_")
+        return self._tmp
+
+    def cleanup(self):
+        import shutil
+        if getattr(self, "_tmp", None):
+            shutil.rmtree(self._tmp, ignore_errors=True)
+            self._tmp = None
 
     def observe(self, spec):
         """exception class or the issues: (kind, severity, ec_row, ec_column) and, for the oracles, context"""
@@ -274,7 +330,9 @@ class Real:
             hs = i.get("ec_HedString")
             out.append({"k": [i["code"] + ":" + str(i.get("_kind")), i["severity"], i.get("ec_row"),
                               None if col is None else str(col)],
-                        "code": i["code"], "text": None if hs is None else hs._hed_string, "pos": i.get("char_index")})
+                        "col": norm_label(col),     # type-exact: the integer 0 is neither "" nor "0"
+                        "code": i["code"], "text": None if hs is None else getattr(hs, "_hed_string", hs),
+                        "pos": i.get("char_index")})
         return {"issues": out}
 
     def fmt(self, issues):
@@ -286,6 +344,7 @@ class Real:
         data = self.build(spec)
         dfa = data.dataframe_a
         columns = [str(c) for c in dfa.columns]
+        labels = [norm_label(c) for c in dfa.columns]
         cats = [[str(c.column_name), [str(k) for k in c.hed_dict.keys()]] for c in data.column_metadata().values()
                 if c.column_type == ColumnType.Categorical]
         raw = data.dataframe
@@ -294,12 +353,15 @@ class Real:
             cells = [str(x) for x in dfa.iloc[p]]
             livec = [x for x in cells if x and x != "n/a"]
             self.row_cells.setdefault(",".join(livec), livec)
+            if livec:
+                self.rows_seen.add(tuple(livec))
             rows.append({"onset": None if spec["onsets"] is None else spec["onsets"][p], "cells": cells,
                          "cats": [str(raw[name].iloc[p]) for name, _ in cats]})
         return {"op": "c07.validate", "rowAdj": 2 if data.has_column_names else 1,
                 "hasOnset": data.onsets is not None, "columns": columns, "catCols": cats,
                 "mapIssues": self.fmt(data._mapper.check_for_mapping_issues()),
                 "refs": [str(x) for x in data.get_column_refs()], "allColumns": [str(c) for c in data.columns],
+                "colIdx": [l[1] if l[0] == "i" else None for l in labels], "labels": labels,
                 "maskByRow": variant["maskByRow"], "guardDelay": variant["guardDelay"], "rows": rows, "S": {}}
 
     # -- string-level oracle -------------------------------------------------------------------------
@@ -395,6 +457,16 @@ def canon_obs(keys, classes, adj, has_onset):
     return sorted(out)
 
 
+def tl(label):
+    """typed label as a sortable string: None, 'i:0', 's:HED'"""
+    return None if label is None else f"{label[0]}:{label[1]}"
+
+
+def model_label(x):
+    """the driver's typed label (JSON number or string) in `norm_label` form"""
+    return None if x is None else (["i", x] if isinstance(x, int) and not isinstance(x, bool) else ["s", x])
+
+
 class Limiter:
     def __init__(self, ctx, cap=6):
         self.ctx, self.cap, self.n = ctx, cap, {}
@@ -453,10 +525,15 @@ def check_table(ctx, lim, real, spec, req, model, variant, tag="table"):
         if model.get("exc") != obs.get("exc"):
             ctx.disagree("Tabular.validate = validate (exception)", case, model.get("exc", "issues"), obs.get("exc", "issues"))
         return obs
-    m = canon_obs([i[:4] for i in model["issues"]], classes, adj, has_onset)
-    im = canon_obs([i["k"] for i in obs["issues"]], classes, adj, has_onset)
+    # the column label is compared with its type (integer labels of header-less files: 0 is not "" and not "0")
+    m = canon_obs([i[:3] + [tl(model_label(i[6]))] for i in model["issues"]], classes, adj, has_onset)
+    im = canon_obs([i["k"][:3] + [tl(i["col"])] for i in obs["issues"]], classes, adj, has_onset)
     if m != im:
-        ctx.disagree("Tabular.validate = validate (kind, severity, ec_row, ec_column)", case, m, im)
+        ctx.disagree("Tabular.validate = validate (kind, severity, ec_row, typed ec_column)", case, m, im)
+    if any(l[0] == "i" for l in req["labels"]):
+        ctx.count("headerless:tables")
+        ctx.count("headerless:cell-issues-compared", sum(1 for i in obs["issues"] if i["col"] is not None))
+        ctx.count("headerless:cell-issues-in-column-0", sum(1 for i in obs["issues"] if i["col"] == ["i", 0]))
     if model["sorted"]:
         ctx.count("sorted-copy")
     for i in model["issues"]:
@@ -488,8 +565,8 @@ def direct_oracles(ctx, lim, real, case, req, obs, parts, classes):
         livec = [(c, x) for c, x in enumerate(row["cells"]) if x and x != "n/a"]
         cell_iss = {c: real.part("cell", x) for c, x in livec}
         # ---- clause 3: every cell error is reported, with row and column
-        got = sorted((i["k"][0], i["k"][3]) for i in by_row.get(p, []) if i["k"][3] is not None and i["k"][1] < 10)
-        want = sorted((k, req["columns"][c]) for c, l in cell_iss.items() for k, s in l if s < 10)
+        got = sorted((i["k"][0], tl(i["col"])) for i in by_row.get(p, []) if i["col"] is not None and i["k"][1] < 10)
+        want = sorted((k, tl(req["labels"][c])) for c, l in cell_iss.items() for k, s in l if s < 10)
         if any(got.count(x) < want.count(x) for x in want):
             lim.violation("cell-errors-kept", case, {"row": p, "reported": got, "cell_errors": want})
         # ---- clause 2: rows with error-free cells report exactly the string-level error codes
@@ -539,8 +616,11 @@ def direct_oracles(ctx, lim, real, case, req, obs, parts, classes):
             if v is None or v == "n/a" or v in cats[col]:
                 lim.violation("label-key-missing", case, i["k"])
         elif col is not None:
-            if col not in req["columns"] or cells[req["columns"].index(col)] != i["text"]:
-                lim.violation("label-cell", case, {"issue": i["k"], "string": i["text"], "row_cells": cells})
+            # the label must be exactly (value AND type) the label of a column whose cell of that row holds the text
+            sits_in = [req["labels"][c] for c, x in enumerate(cells) if x == i["text"]]
+            if i["col"] not in sits_in:
+                lim.violation("label-cell", case, {"issue": i["k"], "label": i["col"], "string": i["text"],
+                                                   "text_sits_in_columns": sits_in, "row_cells": cells})
         elif not has_onset or req["rows"][p]["onset"] is None:
             if ",".join(x for x in cells if x and x != "n/a") != i["text"]:
                 lim.violation("label-row", case, {"issue": i["k"], "string": i["text"], "row_cells": cells})
@@ -630,6 +710,10 @@ W_DELAY = [plain("tabular", [8, 16], ["Green", "(Delay/1 xyz, (Red))"]),
 W_SORTKEY = plain("sheet_nohdr", None, ["Greenish"], ["Red, Red"])
 W_REFS = dict(plain("sidecar", [24, 8, 16], ["Blue", "Green", "Black"], ["n/a", "n/a", "n/a"], ["w 3", "v1", "v2"]),
               sidecar={"val": {"HED": "Label/#, {HED}"}})
+# header-less spreadsheets: the columns are the integers 0, 1 (or 1, 2 behind a leading non-HED column)
+W_NOHDR = [plain("sheet_nohdr", None, ["Greenish", "Red", "n/a"], ["Blue", "Greenish, Red", "Red/Blue"]),
+           dict(plain("sheet_nohdr", None, ["Greenish", "Red"], ["Blue", "Greenish"]), lead=1),
+           dict(plain("sheet_nohdr", None, ["Greenish", "Red"], ["Blue", "Greenish"]), lead=0, from_file=True)]
 W_MERGED = plain("tabular", [8, 8, 24], ["n/a", "(Def/A, Offset)", "Red"])
 
 
@@ -669,6 +753,42 @@ def span_checks(ctx, real):
             ctx.violation("span-remap-slices-tag", case, {"slice": text[got[0]:got[1]], "tag": t.org_tag})
 
 
+def concat_checks(ctx, real):
+    """`from_hed_strings(cells)`: the cells' trees side by side with remapped spans.  Model `concatTrees` against the real
+    objects for every row seen; and, for rows whose cells all have balanced parentheses, both against the tree of the
+    joined text parsed as one string (the unproved general statement of Props/C07, evaluated)."""
+    from hed import HedString
+    from hed.models.hed_group import HedGroup
+
+    def code(nodes, span):
+        out = []
+        for ch in nodes:
+            a, b = span(ch)
+            out += ([1, a, b] + code(ch.children, span) + [2]) if isinstance(ch, HedGroup) else [0, a, b]
+        return out
+    rows = sorted(real.rows_seen)
+    ctx.rng.shuffle(rows)
+    rows = [list(r) for r in rows[:1500 if ctx.quick() else 12000]] + [["(Red", "Blue)"], ["Red)", "(Blue"]]
+    ans = ctx.model.batch([{"op": "c07.concat", "cells": r} for r in rows])
+    for cells, a in zip(rows, ans):
+        case = {"cells": cells, "concat": True}
+        ctx.case(("concat", json.dumps(cells)), nontrivial=len(cells) > 1)
+        joined = HedString.from_hed_strings([HedString(c, real.schema) for c in cells])
+        impl = code(joined.children, joined._get_org_span)
+        if impl != a["code"]:
+            ctx.disagree("concatTrees = HedString.from_hed_strings (tree with remapped spans)", case, a["code"], impl)
+        whole = HedString(",".join(cells), real.schema)
+        same_impl = impl == code(whole.children, lambda n: n.span)
+        if all(a["balanced"]):
+            ctx.count("concat:rows-with-balanced-cells")
+            if not a["same"]:
+                ctx.disagree("concatTrees = construct(join) for balanced cells (model)", case, a["code"], "differs")
+            if not same_impl:
+                ctx.violation("from_hed_strings-equals-parse-of-join", case, {"from_strings": impl})
+        else:
+            ctx.count("concat:rows-with-unbalanced-cell" + ("" if a["same"] and same_impl else "-trees-differ"))
+
+
 # ---------------------------------------------------------------------------------------------- run
 def run_specs(ctx, lim, real, specs, variant, tag="table"):
     out = []
@@ -684,17 +804,25 @@ def run_specs(ctx, lim, real, specs, variant, tag="table"):
 
 def run(ctx):
     real = Real()
+    try:
+        _run(ctx, real)
+    finally:
+        real.cleanup()
+
+
+def _run(ctx, real):
     lim = Limiter(ctx)
     variant = detect_variant(real)
     ctx.extra["tree_variant"] = variant
     ctx.extra["rule"] = ("frames with 1-3 HED-bearing columns (HED column, sidecar categorical and value columns, spreadsheet tag "
-                         "columns with and without header), cells from valid / invalid / full-check-only fragments, Delay and Duration "
+                         "columns with header, and header-less with integer labels at positions 0.. or behind 1-2 leading columns, from a "
+                         "DataFrame or a TSV file; column labels compared with their type), cells from valid / invalid / full-check-only fragments, Delay and Duration "
                          "groups in 7 unit spellings, c10 temporal markers (plain and delayed), n/a and empty cells, equal and "
                          "non-numeric onsets; all row permutations of files with <= 4 (quick) / 5 rows, random ones for longer; "
                          "non-trivial = at least 2 rows and 2 non-empty cells")
     span_checks(ctx, real)
     # the known witnesses first: concrete violations on a tree without the repairs
-    specs = [W_MASK, W_MERGED, W_SORTKEY, W_REFS] + W_DELAY
+    specs = [W_MASK, W_MERGED, W_SORTKEY, W_REFS] + W_DELAY + W_NOHDR
     n_rand = 700 if ctx.quick() else 9000
     for _ in range(n_rand):
         specs.append(gen_spec(ctx.rng, real))
@@ -721,6 +849,12 @@ def run(ctx):
         for p, s, (rq, obs) in zip(perms, specs, res):
             shuffle_oracle(ctx, lim, base, obs0, p, s, obs, rq0["rowAdj"], classes)
         ctx.check_time()
+    concat_checks(ctx, real)
+    try:    # closed mode: the same pipeline with string validation computed by the C01 model inside Lean
+        from harness.props import closed_c07
+        closed_c07.run_closed(ctx)
+    except ImportError:
+        pass
 
 
 def replay(ctx, rec):
@@ -731,7 +865,13 @@ def replay(ctx, rec):
     if not case:
         print("nothing to replay (obligation-only record):", rec.get("broken_obligations"))
         return
-    if "cells" in case:
+    if case.get("closed"):
+        from harness.props import closed_c07
+        closed_c07.run_closed(ctx, specs=[case["spec"]])
+    elif case.get("concat"):
+        real.rows_seen.add(tuple(case["cells"]))
+        concat_checks(ctx, real)
+    elif "cells" in case:
         span_checks(ctx, real)
     elif "perm" in case:
         res = run_specs(ctx, lim, real, [case["base"], case["spec"]], variant, tag="shuffle")
@@ -740,4 +880,5 @@ def replay(ctx, rec):
         shuffle_oracle(ctx, lim, case["base"], res[0][1], case["perm"], case["spec"], res[1][1], res[0][0]["rowAdj"], classes)
     else:
         run_specs(ctx, lim, real, [case["spec"]], variant)
+    real.cleanup()
     print("replayed", json.dumps(case)[:300])
